@@ -327,7 +327,7 @@ class CrashProfile(Profile):
         st = run.store
         if not st.exists(cfg, s) or not st.data(cfg, s) or st.shares_key(cfg, s):
             return
-        p = run.m.sidecar_path(st.paths[cfg][s])
+        p = run.world.real(run.m.sidecar_path(st.paths[cfg][s]))
         if not os.path.isfile(p):
             run.stats["precondition_unexpected"] += 1
             return
